@@ -635,6 +635,13 @@ func runInv(d Desc) (term string, observed interface{}, sig string) {
 			return
 		case returned && state == exec.TaskErr:
 			outcome = "ORunErr"
+			// a later request for the same invocation's encoding (another task of the
+			// invocation, or a dependent invocation being compiled on a machine) must be
+			// refused on the driver as well: nothing may reach a worker's Compile
+			if stage2, _, _, err2 := w.x.Ship(idx); err2 == nil || stage2 == "compile" || strings.HasPrefix(stage2, "panic") {
+				notes = append(notes, fmt.Sprintf("after Run refused the invocation, a second request for its encoding was not refused on the driver (stage %q, err %v)", stage2, err2))
+				outcome = "OWorkerErr"
+			}
 			return
 		case returned:
 			notes = append(notes, fmt.Sprintf("Run returned in state %v without asking for a machine", state))
